@@ -912,8 +912,16 @@ Proof. intros NE SK Hv A B C. rewrite strip_kv by assumption. now apply not_cat_
 Lemma meta_lines_not_cat m : wf_fields m -> Forall (fun l => not_cat_line (strip l)) (meta_lines m).
 Proof.
   intros (H1 & H2 & H3 & H4 & H5 & H6 & H7 & H8 & H9). unfold meta_lines.
-  repeat constructor; apply kv_not_cat; try reflexivity; try discriminate;
-    first [apply H1|apply H2|apply H3|apply H4|apply H5|apply H6|apply H7|apply H8|apply H9].
+  apply Forall_cons; [apply kv_not_cat; [discriminate|reflexivity|apply H1|reflexivity|reflexivity|reflexivity]|].
+  apply Forall_cons; [apply kv_not_cat; [discriminate|reflexivity|apply H2|reflexivity|reflexivity|reflexivity]|].
+  apply Forall_cons; [apply kv_not_cat; [discriminate|reflexivity|apply H3|reflexivity|reflexivity|reflexivity]|].
+  apply Forall_cons; [apply kv_not_cat; [discriminate|reflexivity|apply H4|reflexivity|reflexivity|reflexivity]|].
+  apply Forall_cons; [apply kv_not_cat; [discriminate|reflexivity|apply H5|reflexivity|reflexivity|reflexivity]|].
+  apply Forall_cons; [apply kv_not_cat; [discriminate|reflexivity|apply H6|reflexivity|reflexivity|reflexivity]|].
+  apply Forall_cons; [apply kv_not_cat; [discriminate|reflexivity|apply H7|reflexivity|reflexivity|reflexivity]|].
+  apply Forall_cons; [apply kv_not_cat; [discriminate|reflexivity|apply H8|reflexivity|reflexivity|reflexivity]|].
+  apply Forall_cons; [apply kv_not_cat; [discriminate|reflexivity|apply H9|reflexivity|reflexivity|reflexivity]|].
+  apply Forall_nil.
 Qed.
 
 Lemma name_line_not_cat a nm : wf_value nm -> not_cat_line (strip (name_line alt_name_prefix a nm)).
